@@ -162,6 +162,21 @@ def _worker(items, base):
                                 "driver": "range", "size": 0, "title": "%s value %d (%s, %s, v%d): %s" % (shape, over, mode, backend, ver, why),
                                 "shape": shape, "value": over, "mode": mode, "backend": backend, "version": ver, "expect": expect,
                                 "teal": text, "features": {"why": "range", "mode": mode}})
+        # fixed-width byte values (byte[N] as abi.StaticBytes, address) given with another width: a literal must be
+        # refused when the value is set, an expression must make the program fail
+        if abi_gen.is_bytes_shape(shape) and shape != "dbytes" or shape == "address":
+            n = 32 if shape == "address" else int(shape[6:])
+            for wrong in sorted(set([0, n - 1, n + 1, 2 * n]) - {n, -1}):
+                for backend in ("main", "sub"):
+                    for ver in _VERSIONS:
+                        for mode, expect in (("lit", "build_error"), ("expr", "run_fail")):
+                            why, text = run_case(shape, bytes(range(wrong)), mode, backend, ver, out, expect=expect)
+                            if why:
+                                out["violations"].append({
+                                    "driver": "width", "size": 0,
+                                    "title": "%s given %d bytes (%s, %s, v%d): %s" % (abi_gen.sig(shape), wrong, mode, backend, ver, why),
+                                    "shape": shape, "value": wrong, "mode": mode, "backend": backend, "version": ver,
+                                    "expect": expect, "teal": text, "features": {"why": "width", "mode": mode}})
         # a uint assembled from ANOTHER ABI uint of every width: either refused when built, or - if the program
         # approves - exactly the reference encoding; a value that does not fit must never be approved
         if isinstance(shape, str) and shape in abi_gen.BITS:
@@ -231,7 +246,8 @@ def replay(case):
         iss = descriptor_issues(case["shape"])
         print(iss)
         return bool(iss)
-    why, _t = run_case(case["shape"], case["value"], case["mode"], case["backend"], case["version"], out,
+    value = bytes(range(case["value"])) if case.get("driver") == "width" else case["value"]
+    why, _t = run_case(case["shape"], value, case["mode"], case["backend"], case["version"], out,
                        expect=case.get("expect", "ok"))
     print("result:", why)
     return bool(why)
